@@ -6,8 +6,10 @@ import (
 	"fmt"
 	"sort"
 	"strconv"
+	"runtime"
 	"strings"
 	"sync"
+	"sync/atomic"
 	"time"
 
 	"github.com/WuKongIM/WuKongIM/internal/runtime/delivery"
@@ -707,14 +709,21 @@ func (r *c32Runner) conc(threads []string) string {
 		}
 	}
 	results := make([][]string, len(ps))
-	start := make(chan struct{})
+	// spin barrier: all goroutines leave within a few nanoseconds of each other, which makes
+	// overlapping critical sections far more likely than a channel wake-up does
+	var ready atomic.Int32
 	var wg sync.WaitGroup
 	for i := range ps {
 		wg.Add(1)
 		go func(i int) {
 			defer wg.Done()
 			own := map[int]uint64{}
-			<-start
+			ready.Add(1)
+			for spins := 0; ready.Load() < int32(len(ps)); spins++ {
+				if spins%64 == 63 {
+					runtime.Gosched()
+				}
+			}
 			for j, w := range ps[i] {
 				res := r.exec(w, own)
 				if w[0] == "bind" {
@@ -729,7 +738,6 @@ func (r *c32Runner) conc(threads []string) string {
 			}
 		}(i)
 	}
-	close(start)
 	wg.Wait()
 	out := make([]string, len(results))
 	for i, rs := range results {
